@@ -125,7 +125,23 @@ func TestC14(t *testing.T) {
 		}
 		// the recording itself must be reproduced by the (deterministic) replay: otherwise the harness wrote state outside ABCI
 		if got, want := ref[len(ref)-1].AppHash, fmt.Sprintf("%x", sc.FinalHash); got != want {
-			r.Inconclusive("%s: replay of the tape does not reproduce the recorded chain (harness wrote state outside ABCI): %s vs %s", cid, got, want)
+			// Either the harness wrote state outside ABCI while recording (a harness problem), or block execution is not
+			// deterministic and the two replays above merely happened to agree. More replays tell the two apart.
+			diverged := false
+			for k := 0; k < 6 && !diverged; k++ {
+				_, more, err := Replay(tf, nil)
+				if err != nil {
+					break
+				}
+				before := r.Violations()
+				compare(r, cid, envSpec{name: fmt.Sprintf("same-process-replay-%d", k+3)}, ref, more, tf)
+				r.Count("replicas_compared", 1)
+				diverged = r.Violations() > before
+			}
+			if diverged {
+				continue
+			}
+			r.Inconclusive("%s: replay of the tape does not reproduce the recorded chain although 8 replays agree with each other (harness wrote state outside ABCI): %s vs %s", cid, got, want)
 			return
 		}
 		r.Sample(map[string]interface{}{"scenario": cid, "blocks": len(tf.Blocks), "txs": ntx, "final_app_hash": ref[len(ref)-1].AppHash, "coverage_keys": len(sc.Coverage)})
